@@ -244,6 +244,7 @@ def gen(rng, tier, i):
         chaos["capacity"] = 1 << 20
     sc.net["chaos"] = chaos
     sc.net["spawn_yield"] = rng.choice([0, 300])
+    sc.net["lock_yield"] = rng.choice([0, 0, 300])   # seeded scheduling points at the asynchronous locks
     sc.cfg["timeouts"] = {"idle": 4, "udp": 4}
     sc.cfg["ioParams"] = {"bufferSize": rng.choice([16, 4096, 65536]), "useSplice": False}
     lis = {"http": sc.add_http_listener("l-http"), "https": sc.add_http_listener("l-https", tls=True), "socks": sc.add_socks_listener("l-socks"),
